@@ -7,6 +7,8 @@ import (
 	"bytes"
 	"encoding/json"
 	"fmt"
+	"os"
+	"path/filepath"
 	"strings"
 	"sync/atomic"
 
@@ -231,6 +233,32 @@ func checkSequence(x, next []byte) []kit.V {
 	return vs
 }
 
+// checkParseFile: ParseFile of a file holding x gives what Parse(x) gives.
+func checkParseFile(dir string, w int, x []byte) []kit.V {
+	name := filepath.Join(dir, fmt.Sprintf("in%d.txtar", w))
+	if err := os.WriteFile(name, x, 0o666); err != nil {
+		kit.Harness("write input file: %v", err)
+	}
+	c := kase{Kind: "file", Input: append([]byte(nil), x...)}
+	var a *txtar.Archive
+	var err error
+	var pan any
+	func() {
+		defer func() { pan = recover() }()
+		a, err = txtar.ParseFile(name)
+	}()
+	switch {
+	case pan != nil:
+		return []kit.V{{Key: "parsefile-panic input=" + kit.Q(x), What: fmt.Sprintf("ParseFile of a file holding %q panics: %v", x, pan), Case: c}}
+	case err != nil:
+		return []kit.V{{Key: "parsefile-error input=" + kit.Q(x), What: fmt.Sprintf("ParseFile of a readable file holding %q fails: %v", x, err), Case: c}}
+	}
+	if b, _ := parseSafe(x); b != nil && !same(a, b) {
+		return []kit.V{{Key: "parsefile-differs input=" + kit.Q(x), What: fmt.Sprintf("ParseFile of a file holding %q = {%s}, Parse of the same bytes = {%s}", x, show(a), show(b)), Case: c}}
+	}
+	return nil
+}
+
 func checkArchive(ar *arch) []kit.V {
 	a := &txtar.Archive{Comment: []byte(ar.Comment)}
 	for _, f := range ar.Files {
@@ -262,6 +290,14 @@ func main() {
 		if c.Kind == "sequence" {
 			return checkSequence(c.Input, c.Next)
 		}
+		if c.Kind == "file" {
+			d, err := os.MkdirTemp(os.Getenv("VERIF_SCRATCH"), "c03r")
+			if err != nil {
+				kit.Harness("mkdtemp: %v", err)
+			}
+			defer os.RemoveAll(d)
+			return checkParseFile(d, 0, c.Input)
+		}
 		r.Watch(127, c.Input)
 		defer r.WatchDone(127)
 		return checkBytes(c.Input)
@@ -280,17 +316,24 @@ func main() {
 	if r.Thorough() {
 		maxLen = 13
 	}
+	scratch, err := os.MkdirTemp(os.Getenv("VERIF_SCRATCH"), "c03")
+	if err != nil {
+		kit.Harness("mkdtemp: %v", err)
+	}
+	defer os.RemoveAll(scratch)
+	var viaFile int64
 	alphas := []struct {
-		name string
-		toks [][]byte
-		max  int
+		name    string
+		toks    [][]byte
+		max     int
+		viaFile bool // also through ParseFile (one file per input: the smaller family only)
 	}{
-		{"{- SP a LF CR}", enum.Bytes("-", " ", "a", "\n", "\r"), maxLen},
-		{"{- SP TAB LF CR >}", enum.Bytes("-", " ", "\t", "\n", "\r", ">"), maxLen - 1},
+		{"{- SP a LF CR}", enum.Bytes("-", " ", "a", "\n", "\r"), maxLen, false},
+		{"{- SP TAB LF CR >}", enum.Bytes("-", " ", "\t", "\n", "\r", ">"), maxLen - 1, false},
 		// whole marker pieces as tokens, so that bytes a text tool might treat
 		// specially (byte-order marks, NUL, invalid UTF-8, Unicode line and space
 		// characters, form feed) reach every position around a marker
-		{"{'-- ' ' --' a LF CRLF BOM NUL 0xFF U+2028 NBSP FF UTF16-BOM}", enum.Bytes("-- ", " --", "a", "\n", "\r\n", "\xef\xbb\xbf", "\x00", "\xff", "\u2028", "\u00a0", "\f", "\xff\xfe"), maxLen - 5},
+		{"{'-- ' ' --' a LF CRLF BOM NUL 0xFF U+2028 NBSP FF UTF16-BOM}", enum.Bytes("-- ", " --", "a", "\n", "\r\n", "\xef\xbb\xbf", "\x00", "\xff", "\u2028", "\u00a0", "\f", "\xff\xfe"), maxLen - 5, true},
 	}
 	var evals, nontrivial, crlf int64
 	var bounds []string
@@ -312,6 +355,12 @@ func main() {
 				r.Violation(v.Key, v.What, v.Case)
 			}
 			r.WatchDone(w)
+			if al.viaFile {
+				for _, v := range checkParseFile(scratch, w, s) {
+					r.Violation(v.Key, v.What, v.Case)
+				}
+				atomic.AddInt64(&viaFile, 1)
+			}
 			if n%509 == 0 && len(s) > 2 {
 				for _, v := range checkSequence(s, append([]byte("-- z --\nqq\n"), s[2:]...)) {
 					r.Violation(v.Key, v.What, v.Case)
@@ -355,10 +404,11 @@ func main() {
 	}
 	r.Set("evaluations", evals+archives)
 	r.Set("distinct_nontrivial", nontrivial+archives)
-	r.Set("rule", "every token string over each alphabet up to the stated length, each visited once (distinct by construction); non-trivial = contains \"-- \" at a line start; plus every archive of <=2 files from the well-formed generator")
+	r.Set("rule", "every token string over each alphabet up to the stated length, each visited once (distinct by construction); non-trivial = contains \"-- \" at a line start; plus every archive of <=2 files from the well-formed generator; the strings of the third alphabet are also written to a file and read through ParseFile")
 	r.Set("bounds", bounds)
 	r.Set("byte_strings", evals)
 	r.Set("wellformed_archives", archives)
+	r.Set("inputs_also_read_through_ParseFile", viaFile)
 	r.Set("exhaustive", !r.Capped())
 	r.Assume("golang.org/x/tools/txtar v0.26.0 (the module /repo itself requires) is the reference definition for CR-free input; an independent 30-line reference parser is compared as well")
 	r.Finish()
